@@ -62,6 +62,7 @@ Json program_to_json(const Program &p) {
     Json fl = Json::arr();
     for (auto &f : p.faults) { Json o = Json::obj(); o.set("kind", sim::fault_kind_name[f.kind]).set("rank", f.rank).set("op", f.op).set("nth", f.nth).set("errclass", f.errclass).set("arg", f.arg); fl.push(o); }
     j.set("faults", fl);
+    if (!p.preload.empty()) { Json pl = Json::arr(); for (auto &f : p.preload) { std::string hex; char b[4]; for (auto c : f.second) { snprintf(b, sizeof b, "%02x", c); hex += b; } Json o = Json::obj(); o.set("path", f.first).set("hex", hex); pl.push(o); } j.set("preload", pl); }
     return j;
 }
 Program program_from_json(const Json &j) {
@@ -80,6 +81,7 @@ Program program_from_json(const Json &j) {
         sim::Fault f; std::string k = o.at("kind").str(); for (int i = 0; i < sim::F_KIND_COUNT; i++) if (k == sim::fault_kind_name[i]) f.kind = i;
         f.rank = (int)o.at("rank").num(); f.op = (int)o.at("op").num(); f.nth = (int)o.at("nth").num(); f.errclass = (int)o.at("errclass").num(); f.arg = (int)o.at("arg").num(); p.faults.push_back(f);
     }
+    for (auto &o : j.at("preload").a) { std::string hex = o.at("hex").str(); std::vector<uint8_t> b; for (size_t i = 0; i + 1 < hex.size(); i += 2) b.push_back((uint8_t)strtoul(hex.substr(i, 2).c_str(), nullptr, 16)); p.preload.push_back({o.at("path").str(), b}); }
     return p;
 }
 static std::string vec_s(const std::vector<long long> &v) { std::string s = "["; for (size_t i = 0; i < v.size(); i++) { if (i) s += ","; s += std::to_string(v[i]); } return s + "]"; }
